@@ -311,11 +311,16 @@ func wire(err error) error {
 	if err == nil {
 		return nil
 	}
-	var code twirp.ErrorCode = twirp.Internal
-	if te, ok := rpc.WrapError(err).(twirp.Error); ok {
-		code = te.Code()
+	te, ok := rpc.WrapError(err).(twirp.Error)
+	if !ok {
+		return chord.ErrorMapper(twirp.NewError(twirp.Internal, err.Error()))
 	}
-	return chord.ErrorMapper(twirp.NewError(code, err.Error()))
+	// what survives the wire: code, message and metadata (not the Go wrap chain)
+	onWire := twirp.NewError(te.Code(), te.Msg())
+	for k, v := range te.MetaMap() {
+		onWire = onWire.WithMeta(k, v)
+	}
+	return chord.ErrorMapper(onWire)
 }
 
 type matchInfo struct {
